@@ -17,7 +17,7 @@ RULE = ("histories of directory operations drawn from one PRNG (VERIF_SEED): blo
         "fixed boundary scenarios (ref 65535 / wrap-around search, odd block sizes, block overflow with caching off, a "
         "session that ends with a full last DD block and nothing behind it in the file -- filled by Hdupdd aliases -- then "
         "reopen, more objects, reopen; the library's end of file is read after every reopen, "
-        "duplicate onto a used key) and every history of length <= 3 (thorough: <= 5) over a 6-operation alphabet, "
+        "duplicate onto a used key, access elements kept open across operations with Hclose refused and retried) and every history of length <= 3 (thorough: <= 5) over a 6-operation alphabet, "
         "each with caching on and off.  A history is non-trivial when it is inside the specification's domain and "
         "changes the directory at least once; distinct by its operation text")
 TRUSTED = ["Coq 8.16.1 kernel (vm_compute used for the 256-entry table sweep and the 65536-tag macro sweeps; no native_compute)",
@@ -146,11 +146,30 @@ def gen_history(r, length, cache0=None):
             if k in sh.live and sh.live[k][0] != sh.base(t):
                 continue
             h.append("length %d %d" % (sh.base(t), rf))
-        elif x < 0.91:
+        elif x < 0.905:
             t = r.choice(tags + [0, 0, 0])
             if t and r.random() < 0.3:
                 t = special(t)
             h.append("findall %d %d %d" % (t, r.choice([0, 0, 0, r.choice(refs)]), r.choice([1, 2])))
+        elif x < 0.925:
+            # access elements kept open across the following operations, and an Hclose that may be refused
+            y = r.random()
+            if y < 0.3:
+                t, rf = livekey()
+                k = (sh.base(t), rf)
+                if k in sh.live and sh.live[k][0] != sh.base(t):
+                    continue
+                h.append("aopen %d %d" % (sh.base(t), rf))
+            elif y < 0.6:
+                t, rf = r.choice(tags), r.choice(refs)
+                if (t, rf) in sh.live:
+                    continue
+                h.append("awrite %d %d %d" % (t, rf, r.choice([1, 4, 30])))
+                sh.live[(t, rf)] = [t, 1]
+            elif y < 0.8:
+                h.append("tryclose")
+            else:
+                h.append("aend")
         elif x < 0.95:
             h.append("cache %d" % r.choice([0, 1]))
         elif x < 0.96:
@@ -220,6 +239,17 @@ def scenarios(r):
             S.append(h + obs)
     h = ["open 4", "cache 0"] + ["put %d %d 5" % (T, i) for i in range(1, 4)] + ["dup %d %d %d 2" % (U, i, T) for i in range(1, 9)]
     S.append(h + ["reuse %d 3" % T, "reopen", "eof", "put %d 9 6" % T, "dup %d 9 %d 9" % (U, T), "reopen", "eof"] + obs)
+    # an Hclose refused because access elements are attached, work continues through the same file id, recovery
+    # (Hendaccess, Hclose), reopen: nothing of the session may be lost
+    for pre in ([], ["cache 0"]):
+        for n in (4, 16):
+            h = ["open %d" % n] + pre + ["put %d 1 5" % T, "aopen %d 1" % T, "tryclose", "number %d" % T, "number 0", "findall 0 0 1",
+                 "exist %d 1" % T, "put %d 2 6" % T, "dup %d 1 %d 2" % (U, T), "awrite %d 3 4" % T, "tryclose", "length %d 3" % T,
+                 "newref", "tagnewref %d" % T] + ["put %d %d 2" % (U, i) for i in range(2, n + 1)]
+            h += ["tryclose", "dump", "aend", "findall 0 0 2", "tryclose", "eof", "dump", "findall 0 0 1", "number %d" % U]
+            S.append(h + obs)
+    S.append(["open 5", "awrite %d 1 9" % T, "awrite %d 2 9" % T, "del %d 1" % T, "tryclose", "reuse %d 2" % T, "tryclose", "aend",
+              "tryclose", "tryclose", "put %d 2 3" % T] + obs)
     # tag with every low ref used: bit-vector byte boundaries
     S.append(["open 16"] + ["put %d %d 1" % (T, i) for i in range(1, 18)] + ["tagnewref %d" % T, "del %d 8" % T, "tagnewref %d" % T,
              "put %d 8 1" % T, "del %d 16" % T, "tagnewref %d" % T, "del %d 1" % T, "tagnewref %d" % T] + obs)
@@ -331,9 +361,27 @@ def compare(h, rl, ml):
     """returns (kind, index, text): kind in None | 'RS' | 'RM'; stops at the first op outside S's domain"""
     rm = None
     changed = False
+    naid = 0
     for i, (rline, mline) in enumerate(zip(rl, ml)):
         opx, r = split(rline)
         op = opx.split()[0]
+        if op in ("open", "reopen"):
+            naid = 0
+        elif op == "aopen":
+            naid += (r == "ok")
+            continue
+        elif op == "aend":
+            naid = 0
+            if r != "ok":
+                return ("RS", i, "Hendaccess of an open access element failed"), changed
+            continue
+        elif op == "tryclose":
+            want = "refused" if naid > 0 else "ok"
+            if r != want:
+                return ("RS", i, "Hclose with %d access element(s) attached: library '%s', expected '%s'" % (naid, r, want)), changed
+            continue
+        elif op == "awrite":
+            naid += (r == "ok")
         m, _, s = mline.partition(" ; S ")
         m = m[2:].strip()
         s = s.strip()
@@ -352,7 +400,7 @@ def compare(h, rl, ml):
             continue
         if s == "nodomain":
             break
-        if op in ("put", "dup", "del", "reuse") and r == "ok":
+        if op in ("put", "awrite", "dup", "del", "reuse") and r == "ok":
             changed = True
         if op == "findall":
             rs = r.split()
